@@ -318,10 +318,15 @@ class BinningConfig(BaseConfig, Immutable):
             if method == "custom":
                 raise ConfigError("'method' is 'custom' but no bin edges provided")
             the_dict = dict()
-            the_dict["zmin"] = self.zmin if zmin is NotSet else zmin
-            the_dict["zmax"] = self.zmax if zmax is NotSet else zmax
-            the_dict["num_bins"] = self.num_bins if num_bins is NotSet else num_bins
             the_dict["method"] = self.method if method is NotSet else BinMethod(method)
+            if the_dict["method"] == BinMethod.custom:  # keep the custom bin edges
+                the_dict["edges"] = self.edges
+            else:
+                the_dict["zmin"] = self.zmin if zmin is NotSet else zmin
+                the_dict["zmax"] = self.zmax if zmax is NotSet else zmax
+                the_dict["num_bins"] = (
+                    self.num_bins if num_bins is NotSet else num_bins
+                )
 
         else:
             the_dict = dict(edges=edges)
